@@ -498,6 +498,12 @@ def _run_check(spec, tier, seed, replay=None):
     for cls, f in known.items():
         st = "confirmed on this run" if cls in seen_known else "NOT reproduced on this run (entry may be stale)"
         print(f"KNOWN-FINDING: property={pid} {cls}: {f.get('what', '')} [{st}]")
+    if corr_error:
+        notes.append("correspondence run failed: " + " ".join(str(corr_error).split())[:600])
+    if proof_broken:
+        notes.append("proof obligations not discharged: " + ", ".join(pr["failed_theorems"][:8]) + " | " + " ".join(" ".join(pr["errors"][:3]).split())[:500])
+    for d in disagreements[:3]:
+        notes.append(f"disagreement ({d.get('run')}, line {d.get('line')}): op={str(d.get('op'))[:160]} impl={str(d.get('impl'))[:120]} model={str(d.get('model'))[:120]}")
     for n in notes:
         print("NOTE: " + n)
     for p, suffix in violations:
